@@ -643,6 +643,15 @@ theorem splitScheme_http (tls : Bool) (r : Str) :
   cases tls <;>
     simp [httpPrefix, httpScheme, splitScheme, takeUntil, dropUntil, schemeChar, List.contains_cons]
 
+/-- what the parsing lemmas need to know about the scheme text `P` (`…://`) that reaches `urlsplit`:
+    the clean-up leaves it alone and it splits into the (lower-cased) scheme `S` and `//…` -/
+structure PrefixOk (P S : Str) : Prop where
+  clean : ∀ r, (∀ x ∈ r, urlCh x = true) → cleanUrl (P ++ r) = P ++ r
+  split : ∀ r, splitScheme (P ++ r) = (S, '/' :: '/' :: r)
+
+theorem httpPrefixOk (tls : Bool) : PrefixOk (httpPrefix tls) (httpScheme tls) :=
+  ⟨cleanUrl_http tls, splitScheme_http tls⟩
+
 theorem splitNetloc_parts (NL REST : Str) (hNL : ∀ x ∈ NL, netlocDelim x = false)
     (hR : REST = [] ∨ ∃ c t, REST = c :: t ∧ netlocDelim c = true) :
     splitNetloc ('/' :: '/' :: (NL ++ REST)) = (NL, REST) := by
@@ -672,12 +681,12 @@ theorem urlCh_of_qCh (c : Char) (h : qCh c = true) : urlCh c = true := by
 /-- shape of a rendered path: absent, or '/' followed by segment text -/
 def PathOk (PATH : Str) : Prop := PATH = [] ∨ ∃ t, PATH = '/' :: t ∧ ∀ x ∈ t, pathCh x = true
 
-theorem urlsplit_parts (v6ok : Str → Bool) (tls : Bool) (NL PATH : Str) (os : List UOpt)
+theorem urlsplit_parts (v6ok : Str → Bool) (P S : Str) (hPS : PrefixOk P S) (NL PATH : Str) (os : List UOpt)
     (hNL : ∀ x ∈ NL, urlCh x = true ∧ netlocDelim x = false)
     (hbr : NL.contains '[' = NL.contains ']' ∧ (NL.contains '[' = true → v6ok (bracketed NL) = true))
     (hP : PathOk PATH) :
-    urlsplit v6ok (httpPrefix tls ++ (NL ++ (PATH ++ renderQuery os))) =
-      .ok ⟨httpScheme tls, NL, PATH, queryText os, []⟩ := by
+    urlsplit v6ok (P ++ (NL ++ (PATH ++ renderQuery os))) =
+      .ok ⟨S, NL, PATH, queryText os, []⟩ := by
   have hQ := queryText_class os
   -- character facts
   have hPu : ∀ x ∈ PATH, urlCh x = true ∧ x ≠ '?' ∧ x ≠ '#' := by
@@ -735,7 +744,7 @@ theorem urlsplit_parts (v6ok : Str → Bool) (tls : Bool) (NL PATH : Str) (os : 
     have := urlCh_range x (hNL x hx).1
     omega
   unfold urlsplit
-  rw [cleanUrl_http tls _ hall, splitScheme_http]
+  rw [hPS.clean _ hall, hPS.split]
   simp only []
   rw [splitNetloc_parts NL _ (fun x hx => (hNL x hx).2) hR]
   simp only [hbr.1, bne_self_eq_false, Bool.false_eq_true, if_false]
@@ -1125,13 +1134,20 @@ theorem renderRaw_eq (c : Components) :
       (renderPath c.vhost ++ renderQuery c.opts)) := by
   simp only [renderRaw, amqpPrefix, List.append_assoc]
 
-/-- what the parser called by `UriConnection.__init__` reports for `patch_uri` of a rendered URI -/
-theorem urlparse_render' (v6ok : Str → Bool) (c : Components) (hwh : ∀ h, c.host = some h → h.WF v6ok)
+/-- everything of a rendered URI after the scheme prefix -/
+def renderBody (c : Components) : Str :=
+  (renderUserinfo c.user c.pass ++ (renderHost c.host ++ renderPort c.port)) ++
+    (renderPath c.vhost ++ renderQuery c.opts)
+
+/-- what the parser called by `UriConnection.__init__` reports for a rendered URI whose scheme prefix
+    is written as `pre`, becomes `P` under `patch_uri` and is reported as scheme `S` -/
+theorem urlparse_body' (v6ok : Str → Bool) (pre P S : Str) (hpatch : ∀ r, patchUri (pre ++ r) = P ++ r)
+    (hPS : PrefixOk P S) (c : Components) (hwh : ∀ h, c.host = some h → h.WF v6ok)
     (he : c.EncOk) :
-    urlparse v6ok (patchUri (renderRaw c)) =
+    urlparse v6ok (patchUri (pre ++ renderBody c)) =
       match portOf (c.port.map toDec) with
       | .ok port => .ok
-        ⟨httpScheme c.tls, uiUser c.user c.pass, c.pass,
+        ⟨S, uiUser c.user c.pass, c.pass,
          c.host.map (fun h => h.text.map Char.toLower), port, renderPath c.vhost, queryText c.opts⟩
       | .error e => .error e := by
   have hHP := renderHP_class v6ok c.host c.port hwh
@@ -1151,17 +1167,29 @@ theorem urlparse_render' (v6ok : Str → Bool) (c : Components) (hwh : ∀ h, c.
       have d := class_ne hpCh x '#' (hHP x hx) (by decide)
       simp [netlocDelim, a, b, d]
   have hbr := netloc_brackets v6ok _ hUI c.host c.port hwh
-  have hsplit := urlsplit_parts v6ok c.tls _ (renderPath c.vhost) c.opts hNL hbr (renderPath_ok c.vhost he.vhost)
+  have hsplit := urlsplit_parts v6ok P S hPS _ (renderPath c.vhost) c.opts hNL hbr (renderPath_ok c.vhost he.vhost)
   have hui := userinfo_render c.user c.pass (renderHost c.host ++ renderPort c.port)
     (ne_of_class hHP '@' (by decide)) he.user he.pass
   have hhi := hostinfo_hp _ c.host c.port v6ok hwh hui.2
   -- the source calls `urlsplit`: no `;params` are cut off the path
   have hcut : Gen.Uri.cutsParams = false := rfl
-  rw [renderRaw_eq, patchUri_amqp]
+  rw [renderBody, hpatch]
   unfold urlparse
   simp only [hsplit, bind, Except.bind, hcut, Bool.false_and, Bool.false_eq_true, if_false, hui.1, hhi,
     hostnameOf_host v6ok c.host hwh, pure, Except.pure]
   cases portOf (c.port.map toDec) <;> rfl
+
+/-- what the parser called by `UriConnection.__init__` reports for `patch_uri` of a rendered URI -/
+theorem urlparse_render' (v6ok : Str → Bool) (c : Components) (hwh : ∀ h, c.host = some h → h.WF v6ok)
+    (he : c.EncOk) :
+    urlparse v6ok (patchUri (renderRaw c)) =
+      match portOf (c.port.map toDec) with
+      | .ok port => .ok
+        ⟨httpScheme c.tls, uiUser c.user c.pass, c.pass,
+         c.host.map (fun h => h.text.map Char.toLower), port, renderPath c.vhost, queryText c.opts⟩
+      | .error e => .error e := by
+  rw [renderRaw_eq]
+  exact urlparse_body' v6ok _ _ _ (patchUri_amqp c.tls) (httpPrefixOk c.tls) c hwh he
 
 theorem portOf_toDec_big (n : Nat) (h : 65535 < n) : portOf (some (toDec n)) = .error .valueError := by
   have hall : (toDec n).all Char.isDigit = true := by
@@ -1177,6 +1205,70 @@ theorem urlparse_render (v6ok : Str → Bool) (c : Components) (hw : c.WF v6ok) 
     | none => rfl
     | some n => exact portOf_toDec n (hw.port n hp).2
   rw [urlparse_render' v6ok c hw.host he, hport]
+
+theorem urlparse_body (v6ok : Str → Bool) (pre P S : Str) (hpatch : ∀ r, patchUri (pre ++ r) = P ++ r)
+    (hPS : PrefixOk P S) (c : Components) (hw : c.WF v6ok) (he : c.EncOk) :
+    urlparse v6ok (patchUri (pre ++ renderBody c)) = .ok
+      ⟨S, uiUser c.user c.pass, c.pass,
+       c.host.map (fun h => h.text.map Char.toLower), c.port, renderPath c.vhost, queryText c.opts⟩ := by
+  have hport : portOf (c.port.map toDec) = .ok c.port := by
+    cases hp : c.port with
+    | none => rfl
+    | some n => exact portOf_toDec n (hw.port n hp).2
+  rw [urlparse_body' v6ok pre P S hpatch hPS c hw.host he, hport]
+
+/-! ### the scheme in any spelling -/
+
+def amqpScheme (tls : Bool) : Str := if tls then ['a', 'm', 'q', 'p', 's'] else ['a', 'm', 'q', 'p']
+
+/-- no letter that counts is upper case -/
+def Caps.isLower (tls : Bool) (k : Caps) : Bool := !k.a && !k.m && !k.q && !k.p && !(tls && k.s)
+
+/-- what `patch_uri` makes of the scheme prefix: `http(s)://` for the all-lower-case spelling (the
+    only one its case-sensitive comparison recognises), otherwise the text as written -/
+def patchedPrefix (tls : Bool) (k : Caps) : Str := if k.isLower tls then httpPrefix tls else casedPrefix tls k
+
+/-- the scheme `urlsplit` then reports (it lower-cases) -/
+def reportedScheme (tls : Bool) (k : Caps) : Str := if k.isLower tls then httpScheme tls else amqpScheme tls
+
+theorem patchUri_cased (tls : Bool) (k : Caps) (r : Str) :
+    patchUri (casedPrefix tls k ++ r) = patchedPrefix tls k ++ r := by
+  obtain ⟨a, m, q, p, s⟩ := k
+  cases tls <;> cases a <;> cases m <;> cases q <;> cases p <;> cases s <;>
+    simp [casedPrefix, patchedPrefix, Caps.isLower, httpPrefix, patchUri, Gen.Uri.patchTable, uptoColon, takeUntil,
+      replaceFirst, List.isPrefixOf]
+
+theorem casedPrefix_urlCh (tls : Bool) (k : Caps) : ∀ x ∈ casedPrefix tls k, urlCh x = true := by
+  obtain ⟨a, m, q, p, s⟩ := k
+  cases tls <;> cases a <;> cases m <;> cases q <;> cases p <;> cases s <;> decide
+
+theorem patchedPrefixOk (tls : Bool) (k : Caps) : PrefixOk (patchedPrefix tls k) (reportedScheme tls k) := by
+  by_cases hl : k.isLower tls = true
+  · unfold patchedPrefix reportedScheme
+    rw [if_pos hl, if_pos hl]
+    exact httpPrefixOk tls
+  · unfold patchedPrefix reportedScheme
+    rw [if_neg hl, if_neg hl]
+    refine ⟨?_, ?_⟩
+    · intro r h
+      have hall : ∀ x ∈ casedPrefix tls k ++ r, urlCh x = true := by
+        intro x hx
+        rcases List.mem_append.1 hx with hx | hx
+        · exact casedPrefix_urlCh tls k x hx
+        · exact h x hx
+      unfold cleanUrl
+      have : (casedPrefix tls k ++ r).dropWhile c0OrSpace = casedPrefix tls k ++ r := by
+        obtain ⟨a, m, q, p, s⟩ := k
+        cases a <;> simp [casedPrefix, List.dropWhile, c0OrSpace]
+      rw [this, filter_safe _ hall]
+    · intro r
+      obtain ⟨a, m, q, p, s⟩ := k
+      cases tls <;> cases a <;> cases m <;> cases q <;> cases p <;> cases s <;>
+        simp [casedPrefix, amqpScheme, splitScheme, takeUntil, dropUntil, schemeChar, List.contains_cons]
+
+theorem renderRawCased_eq (k : Caps) (c : Components) :
+    renderRawCased k c = casedPrefix c.tls k ++ renderBody c := by
+  simp only [renderRawCased, renderBody, List.append_assoc]
 
 /-- the canonical encoding keeps every component inside its character class -/
 theorem encode_ok (c : Components) : c.encode.EncOk := by
